@@ -87,6 +87,74 @@ pub fn run(input: &mut dyn BufRead, out: &mut dyn Write, _args: &[String]) -> R 
         let krate = v["crate"].as_str().unwrap().to_string();
         let path = format!("{dir}/{}-{}.pcap", std::process::id(), id.to_string().replace('"', ""));
         let filt = v.get("filter").filter(|f| !f.is_null());
+        if krate == "c20" {
+            // one frame at a time through the unified analyzer and through the three protocol analyzers, which share
+            // nothing but the frozen clock (C20)
+            let c = &v["cfg"];
+            let cfg = huginn_net::AnalysisConfig {
+                http_enabled: c["http"].as_bool().unwrap_or(true),
+                tcp_enabled: c["tcp"].as_bool().unwrap_or(true),
+                tls_enabled: c["tls"].as_bool().unwrap_or(true),
+                matcher_enabled: c["matcher"].as_bool().unwrap_or(true),
+            };
+            let matcher_on = true; // the protocol analyzers always match; Unified!Merge applies the configuration
+            let _ = with_db;
+            let r = guarded(|| -> Value {
+                let mut uni = match huginn_net::HuginnNet::new(if with_db { Some(db.as_ref()) } else { None }, cap, Some(cfg.clone())) {
+                    Ok(a) => a,
+                    Err(e) => return json!({"ctor_error": e.to_string(), "rows": []}),
+                };
+                let tcp_m = huginn_net_tcp::SignatureMatcher::new(db.as_ref());
+                let http_m = huginn_net_http::SignatureMatcher::new(db.as_ref());
+                let mut tracker: ttl_cache::TtlCache<huginn_net_tcp::ConnectionKey, huginn_net_tcp::TcpTimestamp> = ttl_cache::TtlCache::new(cap);
+                let mut flows: ttl_cache::TtlCache<huginn_net_http::http_process::FlowKey, huginn_net_http::http_process::TcpFlow> = ttl_cache::TtlCache::new(cap);
+                let procs = huginn_net_http::http_process::HttpProcessors::new();
+                let rows: Vec<Value> = frames
+                    .iter()
+                    .enumerate()
+                    .map(|(i, f)| {
+                        if let Some(c) = v.get("clock").and_then(|c| c.as_array()) {
+                            crate::clock::set_ms(c[i].as_u64().unwrap());
+                        }
+                        let u_ = guarded(|| uni_to(&uni.analyze_tcp(f)));
+                        let t_ = crate::m_tcp::one(f, &mut tracker, if matcher_on { Some(&tcp_m) } else { None });
+                        let h_ = guarded(|| match huginn_net_http::packet_parser::parse_packet(f) {
+                            huginn_net_http::packet_parser::IpPacket::Ipv4(p) => match huginn_net_http::process_ipv4_packet(&p, &mut flows, &procs, if matcher_on { Some(&http_m) } else { None }) {
+                                Ok(r) => json!({"r": "ok", "res": http_result_to(&r)}),
+                                Err(e) => json!({"r": "err", "e": e.to_string()}),
+                            },
+                            huginn_net_http::packet_parser::IpPacket::Ipv6(p) => match huginn_net_http::process_ipv6_packet(&p, &mut flows, &procs, if matcher_on { Some(&http_m) } else { None }) {
+                                Ok(r) => json!({"r": "ok", "res": http_result_to(&r)}),
+                                Err(e) => json!({"r": "err", "e": e.to_string()}),
+                            },
+                            huginn_net_http::packet_parser::IpPacket::None => json!({"r": "noip"}),
+                        });
+                        let l_ = guarded(|| {
+                            let pk = |o: Result<huginn_net_tls::ObservableTlsPackage, huginn_net_tls::HuginnNetTlsError>| match o {
+                                Ok(p) => json!({"r": "ok", "sig": p.tls_client.as_ref().map(crate::m_tls::client_to)}),
+                                Err(e) => json!({"r": "err", "e": e.to_string()}),
+                            };
+                            match huginn_net_tls::packet_parser::parse_packet(f) {
+                                huginn_net_tls::packet_parser::IpPacket::Ipv4(p) => pk(huginn_net_tls::process_tls_ipv4(&p)),
+                                huginn_net_tls::packet_parser::IpPacket::Ipv6(p) => pk(huginn_net_tls::process_tls_ipv6(&p)),
+                                huginn_net_tls::packet_parser::IpPacket::None => json!({"r": "noip"}),
+                            }
+                        });
+                        json!({"uni": u_.unwrap_or_else(|e| json!({"panic": e})), "tcp": t_, "http": h_.unwrap_or_else(|e| json!({"r": "panic", "e": e})), "tls": l_.unwrap_or_else(|e| json!({"r": "panic", "e": e}))})
+                    })
+                    .collect();
+                json!({"rows": rows})
+            });
+            let o = match r {
+                Ok(mut x) => {
+                    x["id"] = id;
+                    x
+                }
+                Err(e) => json!({"id": id, "panic": e}),
+            };
+            writeln!(out, "{o}").map_err(|e| e.to_string())?;
+            continue;
+        }
         let r = guarded(|| -> Value {
             if krate != "uni_direct" {
                 write_pcap(&path, &frames).expect("write pcap");
